@@ -7,6 +7,7 @@ from typing import Any
 
 from ..contexts import Ctx
 from ..objectmodel import nodedataclass
+from ..util import trim
 from .base import Leaf
 from .math import ffset
 
@@ -132,7 +133,15 @@ class Constant(Leaf):
 
     def _pretty(self, lean=False):
         _ = lean
-        return f'`{self.literal!s}`'
+        literal = str(self.literal)
+        if '\n' in literal:
+            # NOTE: as trimmed when evaluated
+            literal = trim(literal)
+        if '\n' in literal:
+            # NOTE: only ```constant``` may span lines; the text starts on its
+            #   own line so that indenting it keeps the lines aligned
+            return f'```\n{literal}```'
+        return f'`{literal}`'
 
     @cached_property
     def _nullable(self) -> bool:
